@@ -91,7 +91,8 @@ def wstallOp : List String → String
     | some t, [r, tf, e] =>
       match e.toNat? with
       | some el =>
-        if r == "HANG" then propfail "send-blocked-far-beyond-the-timeout"
+        if r == "setup" then propfail "connection-could-not-be-set-up"
+        else if r == "HANG" then propfail "send-blocked-far-beyond-the-timeout"
         else if r.startsWith "ok" then propfail "send-succeeded-although-the-peer-never-read-the-message"
         else if el > 4 * t + 1500 then propfail "send-returned-late"
         else if tf != "t" then propfail "timeout-error-does-not-identify-itself-as-timeout"
